@@ -250,6 +250,73 @@ def _rule_R21(text, args):
     return text, n
 
 
+def _rule_R23(text, args):
+    # X.last_mut()  ->  vstub_vec_last_mut(X)     (X an identifier of type &mut Vec<T>)
+    # (slice::last_mut through Vec's DerefMut is outside vstd; bound to a trusted stub: None on an empty vector, else a
+    #  mutable reference to the last element, the others untouched)
+    rx = re.compile(r"(?<![A-Za-z0-9_.])(?P<x>" + IDENT + r")\.last_mut\(\)")
+    return rx.subn(lambda m: "vstub_vec_last_mut(%s)" % m.group("x"), text)
+
+
+def _rule_R24(text, args):
+    # E.filter(|&n| COND)  ->  (match E { Some(n) => if COND { Some(n) } else { None }, None => None })
+    # (Option::filter over a Copy payload, desugared; E is the call / path expression directly before `.filter`)
+    rx = re.compile(r"(?P<e>" + IDENT + r"(?:::" + IDENT + r")*\([^()]*\))\.filter\(\s*\|\s*&\s*(?P<n>" + IDENT + r")\s*\|\s*(?P<c>[^()|]+?)\s*\)")
+    return rx.subn(lambda m: "(match %s { Some(%s) => if %s { Some(%s) } else { None }, None => None })" % (
+        m.group("e"), m.group("n"), m.group("c"), m.group("n")), text)
+
+
+def _hoist_closure(text, name, params, cspec, cexit, what):
+    """rule R22: `let NAME = |PARAMS| EXPR;` where the closure captures nothing  ->  the statement is removed, calls
+    NAME(..) become vclosure_NAME(..), and `fn vclosure_NAME(PARAMS: given types) <contract> { EXPR }` (EXPR verbatim) is
+    emitted after the item.  A closure that does capture a local makes the hoisted function fail to compile (UNDECIDED)."""
+    rx = re.compile(r"let\s+" + re.escape(name) + r"\s*=\s*\|(?P<ps>[^|]*)\|")
+    m = rx.search(text)
+    if not m:
+        raise UnitError("%s: closure %s not found (rule R22)" % (what, name))
+    # parameter names of the closure, in order
+    names = []
+    d = 0
+    cur = ""
+    for ch in m.group("ps") + ",":
+        if ch in "<([":
+            d += 1
+        elif ch in ">)]":
+            d -= 1
+        if ch == "," and d == 0:
+            if cur.strip():
+                names.append(cur.split(":")[0].strip())
+            cur = ""
+        else:
+            cur += ch
+    given = [a.partition(":") for a in params]
+    if [g[0] for g in given] != names:
+        raise UnitError("%s: closure %s has parameters %r, directive gives %r" % (what, name, names, [g[0] for g in given]))
+    # EXPR: up to the `;` at depth 0
+    i = m.end()
+    d = 0
+    j = i
+    while j < len(text):
+        ch = text[j]
+        if ch in "([{":
+            d += 1
+        elif ch in ")]}":
+            d -= 1
+        elif ch == ";" and d == 0:
+            break
+        j += 1
+    expr = text[i:j].strip()
+    rest = text[:m.start()] + "/* R22: closure `%s` hoisted to fn vclosure_%s below */" % (name, name) + text[j + 1:]
+    rest, ncalls = re.subn(r"(?<![A-Za-z0-9_.])" + re.escape(name) + r"\s*\(", "vclosure_%s(" % name, rest)
+    plist = ", ".join("%s: %s" % (g[0], g[2]) for g in given)
+    body = expr
+    if cexit.strip():
+        body = "let vresult__ = { %s };\n/*@hint*/ %s /*@endhint*/\n vresult__" % (expr, cexit.strip())
+    hoisted = ("// R22: the non-capturing closure `%s` of %s, hoisted (body verbatim)\nfn vclosure_%s(%s)\n/*@spec*/\n%s\n/*@endspec*/\n{\n%s\n}\n"
+               % (name, what, name, plist, cspec.rstrip(), body))
+    return rest, hoisted, ncalls
+
+
 def _rule_R6(text, args):
     # path normalisation for the one-file unit: args are from=to pairs (e.g. super::OptionalSpace=OptionalSpace)
     n = 0
@@ -279,7 +346,7 @@ def _rule_R16(text, args):
     return rx.subn(lambda m: 'write!(%s, "{}%s", %s)' % (m.group(1), m.group(3), m.group(2)), text)
 
 
-RULES = {"R21": _rule_R21, "R20": _rule_R20, "R19": _rule_R19, "R18": _rule_R18, "R17": _rule_R17, "R16": _rule_R16, "R15": _rule_R15, "R6": _rule_R6, "R14": _rule_R14, "R13": _rule_R13, "R1": _rule_R1, "R4": _rule_R4, "R4rev": _rule_R4rev, "R11": _rule_R11, "R8": _rule_R8, "R7": _rule_R7,
+RULES = {"R24": _rule_R24, "R23": _rule_R23, "R21": _rule_R21, "R20": _rule_R20, "R19": _rule_R19, "R18": _rule_R18, "R17": _rule_R17, "R16": _rule_R16, "R15": _rule_R15, "R6": _rule_R6, "R14": _rule_R14, "R13": _rule_R13, "R1": _rule_R1, "R4": _rule_R4, "R4rev": _rule_R4rev, "R11": _rule_R11, "R8": _rule_R8, "R7": _rule_R7,
          "R9": _rule_R9, "R12": _rule_R12}
 
 
@@ -666,6 +733,7 @@ def assemble(unit_path, canary=None):
         spec = ""
         loops_spec = {}
         hints = []
+        closures = {}   # name -> {"params": [...], "spec": str, "exit": str}
         section = None
         buf = []
         i += 1
@@ -682,6 +750,12 @@ def assemble(unit_path, canary=None):
                 loops_spec[section[1]] = text
             elif section[0] == "hint":
                 hints.append((section[1], text))
+            elif section[0] == "closure":
+                closures.setdefault(section[1], {"params": [], "spec": "", "exit": ""})
+                closures[section[1]]["params"] = section[2]
+                closures[section[1]]["spec"] = text
+            elif section[0] == "closureexit":
+                closures.setdefault(section[1], {"params": [], "spec": "", "exit": ""})["exit"] = text
             buf = []
 
         while i < len(lines):
@@ -718,6 +792,14 @@ def assemble(unit_path, canary=None):
             elif s2.startswith("//@hint"):
                 flush()
                 section = ("hint", s2[len("//@hint"):].strip())
+            elif s2.startswith("//@closureexit"):
+                flush()
+                section = ("closureexit", s2[len("//@closureexit"):].strip())
+            elif s2.startswith("//@closure"):
+                flush()
+                parts = s2[len("//@closure"):].strip().split(" ", 1)
+                # parameters: `name:Type` separated by ` ; ` (types contain spaces and commas)
+                section = ("closure", parts[0], [x.strip() for x in (parts[1] if len(parts) > 1 else "").split(" ; ") if x.strip()])
             elif s2.startswith("//@"):
                 raise UnitError("%s:%d: unknown directive %s" % (unit_path, i + 1, s2))
             else:
@@ -756,6 +838,12 @@ def assemble(unit_path, canary=None):
             n_occ = len(rx.findall(text))
             text = rx.sub(lambda m: b, text)
             log.rewrites.append({"item": what, "rule": rule, "from": a, "to": b, "occurrences": n_occ})
+        hoisted_fns = []
+        if item.kind == "fn" and opts.get("body") != "assumed":
+            for cname, c in closures.items():
+                text, hfn, ncalls = _hoist_closure(text, cname, c["params"], c["spec"], c["exit"], what)
+                hoisted_fns.append(hfn)
+                log.rewrites.append({"item": what, "rule": "R22", "from": "let %s = |..| EXPR;" % cname, "to": "fn vclosure_%s(..) { EXPR }" % cname, "occurrences": ncalls})
         if item.kind == "fn" and opts.get("body") == "assumed":
             text = _apply_vis(text, opts.get("vis", "norm"))
             text = _drop_body(text, what)
@@ -768,6 +856,8 @@ def assemble(unit_path, canary=None):
             text = weave_fn(text, opts, spec, loops_spec, hints, log, what)
             if opts.get("mode"):
                 text = opts["mode"] + " " + text
+            if hoisted_fns:
+                text = text + "\n" + "\n".join(hoisted_fns)
         else:
             text = _apply_vis(text, opts.get("vis", "norm"))
             if item.kind in ("struct", "enum"):
